@@ -60,6 +60,7 @@ type gmatrix struct {
 }
 
 type gjob struct {
+	call    string // "" = ordinary job; otherwise the callee (calleeOutputs) of a reusable workflow call
 	id      string
 	needs   []string
 	outputs []string
@@ -77,6 +78,36 @@ type gwf struct {
 	callOutputs    bool
 	jobs           []gjob
 }
+
+// local reusable workflows of the scratch project and their declared outputs
+// ("missing": the file does not exist, the outputs of the call are unknown)
+var calleeOutputs = map[string][]string{"out": {"alpha", "Beta"}, "noout": nil, "emptyout": {}, "oneout": {"Gamma"}}
+var calleeNames = []string{"out", "noout", "emptyout", "oneout", "missing"}
+
+func writeProject(dir string) {
+	hx.Must(os.MkdirAll(filepath.Join(dir, ".git"), 0o755))
+	wd := filepath.Join(dir, ".github", "workflows")
+	hx.Must(os.MkdirAll(wd, 0o755))
+	body := "jobs:\n  j:\n    runs-on: ubuntu-latest\n    steps:\n      - run: echo\n"
+	for name, outs := range calleeOutputs {
+		src := "on:\n  workflow_call:\n"
+		if outs != nil {
+			if len(outs) == 0 {
+				src += "    outputs: {}\n"
+			} else {
+				src += "    outputs:\n"
+				for _, o := range outs {
+					src += "      " + o + ":\n        value: x\n"
+				}
+			}
+		} else {
+			src += "    inputs:\n      i:\n        type: string\n"
+		}
+		hx.Must(os.WriteFile(filepath.Join(wd, "c_"+name+".yaml"), []byte(src+body), 0o644))
+	}
+}
+
+var projectDir string
 
 var idPool = []string{"build", "Test", "deploy", "lint", "Pack", "e2e"}
 var stepPool = []string{"s1", "S2", "cache", "Setup", "x"}
@@ -137,6 +168,12 @@ func gen(r *hx.Rng) *gwf {
 			j.needs = append(j.needs, "ghost") // dangling (reported by the needs rule, not ours)
 		}
 		j.outputs = pickSome(r, namePool, 3)
+		if r.Chance(1, 4) {
+			j.call = r.Pick(calleeNames)
+			j.outputs = calleeOutputs[j.call]
+			w.jobs = append(w.jobs, j)
+			continue
+		}
 		if r.Chance(2, 3) {
 			m := &gmatrix{}
 			if r.Chance(1, 10) {
@@ -235,6 +272,9 @@ func (w *gwf) oracle(rf *ref) int {
 			return 1
 		}
 		if len(rf.path) == 3 && rf.path[1] == "outputs" {
+			if w.jobs[t].call == "missing" {
+				return 0 // the callee cannot be read: its outputs are unknown
+			}
 			for _, o := range w.jobs[t].outputs {
 				if lower(o) == rf.path[2] {
 					return 0
@@ -290,6 +330,9 @@ func (w *gwf) oracle(rf *ref) int {
 		t := w.jobIndex(rf.path[0])
 		if t < 0 {
 			return 1
+		}
+		if w.jobs[t].call != "" {
+			return 0 // outputs of a call job are not declared in the jobs section
 		}
 		for _, o := range w.jobs[t].outputs {
 			if lower(o) == rf.path[2] {
@@ -391,6 +434,10 @@ func (w *gwf) render(r *hx.Rng) (string, []*ref) {
 		if len(j.needs) > 0 {
 			o.add("    needs: [" + strings.Join(j.needs, ", ") + "]")
 		}
+		if j.call != "" {
+			o.add("    uses: ./.github/workflows/c_" + j.call + ".yaml")
+			continue
+		}
 		o.add("    runs-on: ubuntu-latest")
 		if j.matrix != nil {
 			m := j.matrix
@@ -408,12 +455,12 @@ func (w *gwf) render(r *hx.Rng) (string, []*ref) {
 				}
 				switch m.incKind {
 				case 1:
-					o.add("        include: ${{ fromJSON(vars.I) }}")
+					o.add("        include: " + r.Pick([]string{"${{ fromJSON(vars.I) }}", "${{ github.event.client_payload.inc }}"}))
 				case 2:
 					o.add("        include:")
 					for _, c := range m.include {
 						if c.expr {
-							o.add("          - ${{ fromJSON(vars.C) }}")
+							o.add("          - " + r.Pick([]string{"${{ fromJSON(vars.C) }}", "${{ vars }}", "${{ github.event }}", "${{ github.event.client_payload }}"}))
 							continue
 						}
 						for i, k := range c.keys {
@@ -478,6 +525,26 @@ func (w *gwf) render(r *hx.Rng) (string, []*ref) {
 			if s.id != "" {
 				o.add("        id: " + s.id)
 			}
+			// references from the other keys of the step (the step's own id is not in scope there either)
+			for _, key := range []string{"if", "name", "continue-on-error", "timeout-minutes", "working-directory"} {
+				if !r.Chance(1, 3) {
+					continue
+				}
+				id := lower(stepPool[r.Intn(len(stepPool))])
+				if s.id != "" && !strings.Contains(s.id, "${{") && r.Chance(1, 2) {
+					id = lower(s.id) // the step itself
+				}
+				rf := &ref{kind: refSteps, job: ji, k: k, path: []string{id, "outputs", "v"}}
+				e := "steps." + recase(r, id) + ".outputs.v"
+				switch key {
+				case "continue-on-error", "timeout-minutes":
+					e = "fromJSON(" + e + ")"
+				case "if":
+					e += " == 'x'"
+				}
+				rf.line = o.add("        " + key + ": ${{ " + e + " }}")
+				refs = append(refs, rf)
+			}
 			o.add("        env:")
 			o.add("          KEEP: x")
 			refsFor("          ", k)
@@ -525,7 +592,20 @@ func dumpAST(w *actionlint.Workflow, g *gwf) (*astInfo, error) {
 			needs = append(needs, n.Value)
 		}
 		outs := hx.SortedKeys(j.Outputs)
-		js = append(js, fmt.Sprintf("Build_jobS %s %s %s %s None", hx.CoqStr(lower(gj.id)), hx.CoqStr(j.ID.Value), coqStrs(needs), coqStrs(outs)))
+		call := "None"
+		if j.WorkflowCall != nil {
+			// outputs type of the call: from the callee's metadata (what the project on disk declares)
+			if gj.call == "missing" {
+				call = "(Some (map_obj SLeaf))"
+			} else {
+				var ps []string
+				for _, o := range calleeOutputs[gj.call] {
+					ps = append(ps, "("+hx.CoqStr(lower(o))+", SLeaf)")
+				}
+				call = "(Some (strict_obj " + hx.CoqList(ps) + "))"
+			}
+		}
+		js = append(js, fmt.Sprintf("Build_jobS %s %s %s %s %s", hx.CoqStr(lower(gj.id)), hx.CoqStr(j.ID.Value), coqStrs(needs), coqStrs(outs), call))
 		var ss []string
 		for _, s := range j.Steps {
 			id := "None"
@@ -600,7 +680,12 @@ func lint(src string) (map[int][]string, *actionlint.Workflow, error) {
 	if err != nil {
 		return nil, nil, err
 	}
-	errs, err := l.Lint("gen.yaml", []byte(src), nil)
+	path := filepath.Join(projectDir, ".github", "workflows", "gen.yaml")
+	proj, perr := actionlint.NewProjects().At(path)
+	if perr != nil || proj == nil {
+		return nil, nil, fmt.Errorf("scratch project not found: %v", perr)
+	}
+	errs, err := l.Lint(path, []byte(src), proj)
 	if err != nil {
 		return nil, nil, err
 	}
@@ -620,6 +705,10 @@ func main() {
 	outDir := flag.String("out", "", "output directory")
 	replay := flag.String("replay", "", "replay file")
 	flag.Parse()
+	projectDir = fmt.Sprintf("/var/tmp/out-c05-%d", os.Getpid())
+	hx.Must(os.RemoveAll(projectDir))
+	writeProject(projectDir)
+	defer os.RemoveAll(projectDir)
 	if *replay != "" {
 		b, err := os.ReadFile(*replay)
 		hx.Must(err)
@@ -631,6 +720,7 @@ func main() {
 		fmt.Printf("line %d: %s\nimplementation verdict %d (messages: %v), property demands %d\n", f.Line, f.Text, got, by[f.Line], f.Want)
 		if got != f.Want {
 			fmt.Println("REPLAY: property violated")
+			os.RemoveAll(projectDir)
 			os.Exit(1)
 		}
 		fmt.Println("REPLAY: property holds on this input")
@@ -639,7 +729,7 @@ func main() {
 	hx.Must(os.MkdirAll(*outDir, 0o755))
 	r := hx.NewRng(*seed)
 	sum := hx.NewSummary("C05")
-	sum.Rule = "random workflow shapes: 1-5 jobs with random needs DAGs (direct, transitive, dangling, case variants), 0-4 steps with ids (case variants, expression ids), matrices (rows, expression rows, include lists / expression / expression elements, whole-matrix expression), workflow_call and workflow_dispatch inputs, declared/undeclared secrets, workflow_call outputs; one reference per line from every step's env (sees earlier steps only), from job outputs (sees all steps), and from on.workflow_call.outputs.*.value (jobs context); non-trivial = a reference whose verdict is 'undefined' or that resolves through a non-empty scope; distinct = distinct (workflow, line)"
+	sum.Rule = "random workflow shapes: 1-5 jobs with random needs DAGs (direct, transitive, dangling, case variants), 0-4 steps with ids (case variants, expression ids), matrices (rows, expression rows, include lists / expression / expression elements, whole-matrix expression), workflow_call and workflow_dispatch inputs, declared/undeclared secrets, workflow_call outputs; reusable-workflow-call jobs (callee with outputs / without an outputs section / with an empty one / missing file, read from a scratch project on disk); one reference per line from every step's env and from its if / name / continue-on-error / timeout-minutes / working-directory (see earlier steps only), from job outputs (sees all steps), and from on.workflow_call.outputs.*.value (jobs context); non-trivial = a reference whose verdict is 'undefined' or that resolves through a non-empty scope; distinct = distinct (workflow, line)"
 	cases, err := os.Create(filepath.Join(*outDir, "cases.txt"))
 	hx.Must(err)
 	defer cases.Close()
